@@ -14,6 +14,9 @@ Differential oracle on observable outputs (DESIGN §2/C07):
                ... and around every set_rng(explicit generator) itself         -> injection-consumes-global-rng
                copy.deepcopy / pickle round trip of the injected instance continues
                like the original (outputs, ctx), taking it leaves the global RNGs alone  -> copied-instance-diverges / copy-consumes-global-rng
+  histories before the injection include scale_strength paths (0, intermediate values) that differ between the twins and end at the
+  same strength; a loader scenario reads a main-process-injected transform through DataLoader workers (no worker_init_fn) under two
+  global seeds and compares every sample with a main-process twin at the same position of that worker's stream -> loader-worker-not-seed-determined
   compositions include ones whose public member list `transforms` was edited after construction (append / insert / replace / filled
   by a subclass after super().__init__), at top level and nested
                an in-domain construction / injection / call raising           -> *-crash / *-refused
@@ -61,9 +64,13 @@ ASSUMPTIONS = [
     "seed sensitivity (another seed gives another output) is evidence that the workload draws at all, never a verdict",
     "whether an instance can be deep-copied / pickled at all is not judged (counted as handles_not_copyable); only copies that exist must continue like the original",
     "member lists are edited through the public `transforms` attribute before the generator is injected",
+    "scale_strength histories are only driven on trees all of whose leaves scale without refusing / mis-scaling (no KDRandomRotation, no "
+    "KDColorJitter family); both twins end at the same strength",
+    "loader scenario: fork start method, sequential sampler, in-order delivery (torch defaults): batch j is produced by worker j % num_workers; "
+    "trees with a KDScheduledTransform that never received its progress arguments are not sent into workers (its own assertion refuses)",
 ]
 MONITORS = ["instance_pairs_compared", "outputs_compared", "ctx_entries_compared", "replays_compared", "sentinel_windows", "injection_windows",
-            "copy_windows", "copied_handles_compared", "edited_member_lists",
+            "copy_windows", "copied_handles_compared", "edited_member_lists", "strength_histories", "loader_runs", "loader_samples_compared",
             "seed_sensitive_cases", "histories_before_injection"]
 
 BOUNDARY_SEEDS = [0, 1, 5, 2 ** 32 - 1, 2 ** 32, 2 ** 63 - 1]
@@ -81,6 +88,15 @@ def _case(rng, tree, T):
         "winit": rng.random() < 0.4,
         "burn": rng.choice([0, 1, 7]),
     }
+    if _strength_ok(tree) and rng.random() < 0.5:
+        # scale_strength histories before the injection: different paths for the twins (one visits 0 - the first batch of every
+        # increasing schedule -, intermediate values), both ending at the SAME strength
+        f = rng.choice([1.0, 1.0, 1.0, 0.5, 0.3, 0.0])
+        pa = rng.choice([[f], [0.7, f], [f, f], [1.0, f]])
+        pb = rng.choice([[0.0, f], [0.0, 0.4, f], [0.6, 0.0, f], [0.2, f], [0.0, 1.0, f]])
+        if rng.random() < 0.2:
+            pa, pb = pb, pa
+        hist["strength"] = {"a": pa, "b": pb}
     s = rng.choice(BOUNDARY_SEEDS) if rng.random() < 0.35 else rng.randrange(2 ** 63)
     s_alt = s + 1 if s < 2 ** 63 - 1 else 12345
     g1 = rng.randrange(2 ** 31)
@@ -93,6 +109,12 @@ def _case(rng, tree, T):
         # second handles (copy.deepcopy / pickle round trip of the injected instance) are taken before call number `at`
         "handle": {"at": rng.choice([0, 0, rng.randrange(n)])},
     }
+
+
+def _strength_ok(tree):
+    """scale_strength is only driven on trees all of whose leaves scale without refusing / mis-scaling (see h07_recipes.strength_ok)"""
+    return tree["t"] != "semseg_seq" and all(H.RECIPES[n["recipe"]].strength_ok and H.RECIPES[n["recipe"]].kd
+                                             for n in H.iter_nodes(tree) if n["t"] == "leaf")
 
 
 def setup(run):
@@ -139,6 +161,8 @@ def gen_cases(run):
                 if not H.has_stochastic_leaf(tree):
                     spec["_trivial"] = True
                 yield spec
+    # (3) loader scenario (few: every run forks worker processes) - first, so that a time budget cannot starve it
+    yield from _gen_loader_cases(run, flags)
     # (2) random compositions
     for i in range(run.n(600, 64000)):
         T = H.random_input_type(rng)
@@ -147,6 +171,22 @@ def gen_cases(run):
         spec = _case(rng, tree, T)
         if not H.has_stochastic_leaf(tree):
             spec["_trivial"] = True
+        yield spec
+
+
+def _gen_loader_cases(run, flags):
+    rng = run.rng
+    for i in range(run.n(6, 16 * 10)):
+        for _ in range(50):
+            T = H.random_input_type(rng)
+            tree, _o = H.gen_composition(rng, T, rng.choice([1, 2, 2, 3]), flags)
+            # a scheduled transform that never got its progress arguments refuses to run inside a worker (own assertion)
+            if H.has_stochastic_leaf(tree) and not any(n["t"] == "scheduled" and not n.get("active") for n in H.iter_nodes(tree)):
+                break
+        spec = _case(rng, tree, T)
+        W = 1 + i % 2
+        spec.update(kind="loader", W=W, bs=rng.choice([1, 2, 3]), gl=[rng.randrange(2 ** 31), rng.randrange(2 ** 31)],
+                    x_seeds=[rng.randrange(10 ** 6) for _ in range(rng.choice([5, 6, 8]))])
         yield spec
 
 
@@ -246,6 +286,19 @@ def evaluate(spec, stats=None, until=PH_EVIDENCE):
     ok, A = call_real(col, lambda: H.build_composition(tree), crash_key="construct-crash", what="constructing the transform")
     if not ok:
         return fail(PH_SETUP, "construct")
+    sh = h.get("strength") if _strength_ok(tree) else None
+
+    def scale(t, values):
+        for v in values:
+            ok_, _ = call_real(col, lambda: t.scale_strength(v), crash_key="scale_strength-crash", what=f"scale_strength({v})")
+            if not ok_:
+                return fail(PH_SETUP, "scale_strength")
+        return None
+
+    if sh:
+        f_ = scale(A, sh["a"])
+        if f_ is not None:
+            return f_
     f_ = inject(A, spec["s"], "A", PH_SETUP, "set_rng(default_rng(s))")
     if f_ is not None:
         return f_
@@ -257,6 +310,12 @@ def evaluate(spec, stats=None, until=PH_EVIDENCE):
     if not ok:
         return fail(PH_SETUP, "construct")
     nh = 0
+    if sh:
+        f_ = scale(B, sh["b"][:-1])
+        if f_ is not None:
+            return f_
+        nh += 1
+        bump("strength_histories")
     for j in range(h["calls"]):
         ok_, _, _ = _call(col, B, H.make_input(T, 10 ** 7 + j), "call")  # un-injected: B's construction-time generator
         nh += 1
@@ -277,6 +336,10 @@ def evaluate(spec, stats=None, until=PH_EVIDENCE):
         if not ok:
             return fail(PH_SETUP, "worker_init")
         nh += 1
+    if sh:
+        f_ = scale(B, sh["b"][-1:])  # both twins end at the same strength
+        if f_ is not None:
+            return f_
     if nh:
         bump("histories_before_injection")
     _seed_globals(pert[0] + 5)  # injection under yet another global state
@@ -348,7 +411,8 @@ def evaluate(spec, stats=None, until=PH_EVIDENCE):
             part = "output" if a[0] != b[0] else "recorded ctx"
             return {"kind": "not-seed-determined", "phase": PH_PAIR,
                     "what": f"two independently constructed instances given set_rng(default_rng({spec['s']})) disagree on the {part} of call {i} "
-                            f"(A: built under global seed {g1}, no history; B: built under {g2}, history {h}){_census_hint(A)}"}
+                            f"(A: built under global seed {g1}, no call history{', scale_strength path ' + str(sh['a']) if sh else ''}; "
+                            f"B: built under {g2}, history {h}){_census_hint(A)}"}
         ra.append(a)
     bump("instance_pairs_compared")
     if until < PH_REPLAY:
@@ -384,6 +448,113 @@ def evaluate(spec, stats=None, until=PH_EVIDENCE):
     return None
 
 
+# ------------------------------------------------------------------------------------------------ loader scenario
+class _LoaderDataset(torch.utils.data.Dataset):
+    """plain torch dataset: sample i = transform(copy of input i); reports the worker that produced it and whether the call
+    changed the worker's process-global RNG states"""
+
+    def __init__(self, inputs, transform):
+        self.inputs = inputs
+        self.transform = transform
+
+    def __len__(self):
+        return len(self.inputs)
+
+    def __getitem__(self, idx):
+        info = torch.utils.data.get_worker_info()
+        ctx = {}
+        before = GlobalRngSentinel.snapshot()
+        err, out = None, None
+        try:
+            out = self.transform(H.clone_input(self.inputs[idx]), ctx)
+        except Exception as e:  # noqa: BLE001 - reported to the parent as a finding
+            kind, where = core.classify_exception(e)
+            err = (kind, type(e).__name__, f"{type(e).__name__}: {e} at {where}")
+        after = GlobalRngSentinel.snapshot()
+        return {"idx": int(idx), "wid": -1 if info is None else int(info.id), "out": canon_value(out), "ctx": canon_value(ctx),
+                "consumed": GlobalRngSentinel.diff(before, after), "err": err}
+
+
+def _identity_collate(batch):
+    return batch
+
+
+def evaluate_loader(spec, stats=None, until=None):
+    """a transform that got an explicit generator in the main process is read through a real DataLoader (num_workers 1..2, no
+    worker_init_fn, fork) under two different global seeds: every delivered sample must be what a main-process twin with the same
+    injected seed produces at the same call position within that worker (each forked worker continues the injected stream from the
+    fork point), independent of the global seeds; the calls must not consume the worker's global RNG streams."""
+    tree, T = spec["tree"], spec["tree"]["in"]
+    col = _Collector()
+    st = stats if stats is not None else {}
+
+    def bump(k, v=1):
+        st[k] = st.get(k, 0) + v
+
+    def fail(default):
+        return dict(_finding(col, default), phase=PH_PAIR)
+
+    inputs = [H.make_input(T, xs) for xs in spec["x_seeds"]]
+    g1, g2 = spec["g"]
+    W, bs = spec["W"], spec["bs"]
+    _seed_globals(g1)
+    ok, A = call_real(col, lambda: H.build_composition(tree), crash_key="construct-crash", what="constructing the transform")
+    if not ok:
+        return fail("construct")
+    ok, _ = call_real(col, lambda: A.set_rng(np.random.default_rng(spec["s"])), crash_key="set_rng-crash", what="set_rng(default_rng(s))")
+    if not ok:
+        return fail("set_rng")
+    ds = _LoaderDataset(inputs, A)
+    runs = []
+    for gl in spec["gl"]:
+        _seed_globals(gl)
+        np.random.random(gl % 5)
+        loader = torch.utils.data.DataLoader(ds, batch_size=bs, num_workers=W, shuffle=False, collate_fn=_identity_collate,
+                                             multiprocessing_context="fork", timeout=120)
+        try:
+            items = [it for batch in loader for it in batch]
+        except RuntimeError as e:
+            if "timed out" in str(e).lower():
+                raise core.Inconclusive(f"DataLoader watchdog: {e}")
+            return {"kind": f"loader-crash:{type(e).__name__}", "phase": PH_PAIR, "what": f"DataLoader(num_workers={W}) over the seeded transform: {e}"[:1500]}
+        bump("loader_runs")
+        runs.append(items)
+    # reference: per worker, an independently constructed main-process twin with the same injected seed, fed with that worker's samples
+    for r, items in enumerate(runs):
+        if sorted(it["idx"] for it in items) != list(range(len(inputs))):
+            raise core.Inconclusive("loader did not deliver every sample exactly once")
+        for w in sorted({it["wid"] for it in items}):
+            mine = [it for it in items if it["wid"] == w]
+            _seed_globals(g2 + w)
+            ok, R = call_real(col, lambda: H.build_composition(tree), crash_key="construct-crash", what="constructing the twin")
+            if not ok:
+                return fail("construct")
+            ok, _ = call_real(col, lambda: R.set_rng(np.random.default_rng(spec["s"])), crash_key="set_rng-crash", what="set_rng(default_rng(s)) (twin)")
+            if not ok:
+                return fail("set_rng")
+            for pos, it in enumerate(mine):
+                if it["err"] is not None:
+                    kind, exc, text = it["err"]
+                    return {"kind": f"call-{'refused' if kind == 'guard' else 'crash'}:{exc}", "phase": PH_PAIR,
+                            "what": f"call inside dataloader worker {w}: {text}"}
+                if it["consumed"]:
+                    return {"kind": f"global-rng-consumed:{'+'.join(it['consumed'])}", "phase": PH_PAIR,
+                            "what": f"sample {it['idx']} produced in dataloader worker {w} (num_workers={W}, global seed {spec['gl'][r]}) changed the "
+                                    f"worker's process-global {it['consumed']} RNG state although a generator had been injected in the main process"}
+                _seed_globals(g2 + 13 * pos)
+                ok_, out, ctx = _call(col, R, H.clone_input(inputs[it["idx"]]), "call")
+                if not ok_:
+                    return fail("call")
+                bump("loader_samples_compared")
+                if canon_value(out) != it["out"] or canon_value(ctx) != it["ctx"]:
+                    part = "output" if canon_value(out) != it["out"] else "recorded ctx"
+                    return {"kind": "loader-worker-not-seed-determined", "phase": PH_PAIR,
+                            "what": f"set_rng(default_rng({spec['s']})) in the main process, then DataLoader(num_workers={W}, batch_size={bs}, no "
+                                    f"worker_init_fn) under global seed {spec['gl'][r]}: the {part} of sample {it['idx']} (call {pos} of worker {w}) is not what "
+                                    f"a main-process twin with the same injected seed produces at that position of the stream"}
+    return None
+
+
 def _census_hint(A):
     """diagnostics only: member generators that were not replaced by the injection (private state, never a verdict)"""
     try:
@@ -404,7 +575,7 @@ def _sub(spec, node, boost=1):
     if "h" in T and T["h"] is None:  # size unknown at generation time (after a random resize): any size is in-domain
         T.update(h=21, w=30)
         node = dict(node, **{"in": T})
-    n = (32 if node["t"] == "leaf" else 12) * boost
+    n = len(spec["x_seeds"]) if spec.get("kind") == "loader" else (32 if node["t"] == "leaf" else 12) * boost
     xs = list(spec["x_seeds"]) + [spec["x_seeds"][0] + 1000 + i for i in range(n - len(spec["x_seeds"]))]
     return dict(spec, tree=node, x_seeds=xs, **{"in": T})
 
@@ -423,19 +594,24 @@ def _minimise(spec, finding):
     out = []
     # construction / injection failures do not depend on draws: the same phase decides for every sub-tree, one round is enough
     setup_failure = finding["kind"].split(":")[0] in ("construct-crash", "construct-refused", "set_rng-crash", "set_rng-refused",
+                                                      "scale_strength-crash", "scale_strength-refused",
                                                       "worker_init-crash", "worker_init-refused",
                                                       "injection-consumes-global-rng") and finding["phase"] == PH_SETUP
     until = PH_SETUP if setup_failure else max(finding["phase"], PH_PAIR)
+    is_loader = spec.get("kind") == "loader"
+    ev = evaluate_loader if is_loader else evaluate
 
     def descend(cur_spec, cur_finding):
         children = [ch for ch in _children(cur_spec["tree"]) if not (ch["t"] == "leaf" and not H.RECIPES[ch["recipe"]].kd)]
         hits = []
-        for boost in ((1,) if setup_failure else (1, 4)):
+        for boost in ((1,) if (setup_failure or is_loader) else (1, 4)):
             # second round (only when no child violated alone, i.e. before the container itself is blamed): many more inputs,
             # so that members that are applied rarely / on tiny patches get a fair chance to show their own draws
             for ch in children:
                 sub = _sub(spec, ch, boost)
-                f = evaluate(sub, until=until)
+                if is_loader and any(n["t"] == "scheduled" and not n.get("active") for n in H.iter_nodes(sub["tree"])):
+                    continue
+                f = ev(sub, until=until)
                 if f is not None:
                     hits.append((sub, f))
             if hits:
@@ -454,8 +630,12 @@ def run_case(run, spec):
     tree = spec["tree"]
     T = tree["in"]
     stats = {}
-    with StepBudget(STEP_LIMIT, _codes(run), what="differential run of one composition"):
-        finding = evaluate(spec, stats)
+    if spec.get("kind") == "loader":
+        finding = evaluate_loader(spec, stats)  # worker processes: bounded by the loader's own timeout
+        run.cover("loader", spec["W"], spec["bs"], T["kind"], tree["t"])
+    else:
+        with StepBudget(STEP_LIMIT, _codes(run), what="differential run of one composition"):
+            finding = evaluate(spec, stats)
     for k, v in stats.items():
         if k != "seed_sensitive":
             run.count(k, v)
@@ -486,6 +666,9 @@ def run_case(run, spec):
                 run.cover("compose-edit", n["edit"]["mode"], n is not tree, n["members"][n["edit"].get("pos", 0)]["t"])
     run.cover("seed", "boundary" if spec["s"] in BOUNDARY_SEEDS else "random")
     run.cover("history", spec["hist"]["calls"] > 0, spec["hist"]["pre_seed"] is not None, spec["hist"]["winit"])
+    if spec["hist"].get("strength"):
+        sp = spec["hist"]["strength"]
+        run.cover("strength-history", sp["a"][-1], 0.0 in sp["a"][:-1], 0.0 in sp["b"][:-1])
     if spec.get("handle"):
         run.cover("handle", "start" if spec["handle"]["at"] == 0 else "mid-stream")
     for c in set(labels):
